@@ -12,8 +12,9 @@ CONSTANTS
   MaxDel = 1
   Interleave = TRUE
   MidEnv = TRUE
+  BFin = FALSE
   FixBump = TRUE
 VIEW view
 CHECK_DEADLOCK FALSE
 INVARIANTS TypeOK Protected Allowed Owned IndexAgree
-PROPERTIES LabelFirst LabelLast
+PROPERTIES LabelFirst LabelLast UsageAfterUser
